@@ -1300,7 +1300,7 @@ _INHERENT_IMPL_ELSEWHERE = re.compile(r"(?:[A-Za-z_][A-Za-z0-9_]*::)+<impl ((?:[
 
 
 class Crate:
-    def __init__(self, path, local_prefix, renames=None):
+    def __init__(self, path, local_prefix, renames=None, field_renames=None):
         with open(path) as fh:
             text = fh.read()
         text = text.replace("crate::", local_prefix + "::")
@@ -1314,7 +1314,20 @@ class Crate:
             # an item the rules know by its path was moved to another module (`mod gc;` split out of store/mod.rs): it is given its
             # old name back everywhere (definitions, call sites, closures below it), so that every rule reads the tree as before
             text = text.replace(actual, expected)
+        for (adt, actual, expected) in (field_renames or []):
+            # a private field the rules know by name was renamed: it is given its old name back (projections, struct literals, the
+            # type's own definition below)
+            text = text.replace('"n":"%s","adt":"%s"' % (actual, adt), '"n":"%s","adt":"%s"' % (expected, adt))
+            text = re.sub(r'"adt":"%s","variant":"[^"]*","vidx":\d+,"fields":\[[^\]]*\]' % re.escape(adt),
+                          lambda m: m.group(0).replace('"%s"' % actual, '"%s"' % expected), text)
         j = json.loads(text)
+        for (adt, actual, expected) in (field_renames or []):
+            for a in j["adts"]:
+                if a["def"] == adt:
+                    for v in a["variants"]:
+                        for fl in v["fields"]:
+                            if fl["name"] == actual:
+                                fl["name"] = expected
         self.name = local_prefix
         self.j = j
         self.types = Types(j["types"])
@@ -1344,9 +1357,10 @@ class Facts:
         self.bin = Crate(os.path.join(d, "xs-bin.json"), "xsbin")
         self.crates = [self.lib, self.bin]
         self.renames = self._moved_items()
-        if self.renames:
-            self.lib = Crate(os.path.join(d, "xs-lib.json"), "xs", self.renames)
-            self.bin = Crate(os.path.join(d, "xs-bin.json"), "xsbin", self.renames)
+        self.field_renames = self._renamed_fields()
+        if self.renames or self.field_renames:
+            self.lib = Crate(os.path.join(d, "xs-lib.json"), "xs", self.renames, self.field_renames)
+            self.bin = Crate(os.path.join(d, "xs-bin.json"), "xsbin", self.renames, self.field_renames)
             self.crates = [self.lib, self.bin]
         self.lib.siblings = self.crates
         self.bin.siblings = self.crates
@@ -1354,6 +1368,50 @@ class Facts:
         self.inlined = []
         if splice:
             self.inlined = inline.apply(self, _AnchorSet(), PINNED_NAMES)
+
+    # private fields the rules name, and what identifies each of them apart from its name
+    PARTITION_FIELDS = {"stream": "frame_partition", "idx_topic": "idx_topic", "idx_context": "idx_context"}     # on-disk partition name -> field
+    TYPED_FIELDS = [("xs::handlers::handler::Handler", "output", "Vec<xs::store::Frame"),
+                    ("xs::store::Store", "contexts", "Set<scru128::id::Scru128Id")]
+
+    def _renamed_fields(self):
+        """[(adt, actual field name, name the rules use)] for private fields that were renamed: the store's partition handles are
+        recognised by the on-disk name they are opened under in `Store::new`, the handler's output buffer and the context registry
+        by being the only field of their type."""
+        out = []
+        adt = "xs::store::Store"
+        a = self.lib.adts.get(adt)
+        nb = self.lib.bodies.get("xs::store::Store::new")
+        if a is not None and nb is not None:
+            have = [fl["name"] for fl in a["variants"][0]["fields"]]
+            live = nb.live_blocks()
+            for bb in sorted(live):
+                for st in nb.blocks[bb]["stmts"]:
+                    if st["k"] == "assign" and st["rv"].get("agg") == "adt" and st["rv"].get("adt") == adt and len(st["rv"]["ops"]) == len(have):
+                        for name, op in zip(st["rv"].get("fields") or have, st["rv"]["ops"]):
+                            try:
+                                e = nb.operand_expr(op)
+                            except FactError:
+                                continue
+                            opened = [y for y in walk(e) if y[0] == "call" and y[1].fn == "fjall::keyspace::Keyspace::open_partition"]
+                            if len(opened) != 1:
+                                continue
+                            disk = const_strs(opened[0][2][1]) if len(opened[0][2]) > 1 else []
+                            want = self.PARTITION_FIELDS.get(disk[0]) if len(disk) == 1 else None
+                            if want and want != name and want not in have and not any(x[1] == name for x in out):
+                                out.append((adt, name, want))
+        for (adt, want, tyfrag) in self.TYPED_FIELDS:
+            for c in self.crates:
+                a = c.adts.get(adt)
+                if a is None or not a["variants"]:
+                    continue
+                fields = a["variants"][0]["fields"]
+                if any(fl["name"] == want for fl in fields):
+                    continue
+                cands = [fl for fl in fields if tyfrag in c.types.s(fl["ty"]) and not str(fl.get("vis")).startswith("Public")]
+                if len(cands) == 1:
+                    out.append((adt, cands[0]["name"], want))
+        return out
 
     def _moved_items(self):
         """[(actual path, path the rules use)] for free functions and types the rules name that are not where they used to be, when
